@@ -60,6 +60,10 @@ class _Violation(Exception):
     pass
 
 
+class _Abort(BaseException):
+    """A harness bug inside a check: leave Hypothesis at once (no shrinking of harness errors)."""
+
+
 class _StopShrink(BaseException):
     """Raised from inside the test function to leave a run-away shrink; not an Exception so that
     Hypothesis lets it through."""
@@ -148,7 +152,11 @@ def run_random_shard(clause: Clause, n_examples: int, seed_value: int, known_ope
         before = stats.evaluations
 
         def body(case):
-            out = _safe_check(clause, case)
+            try:
+                out = _safe_check(clause, case)
+            except Exception as e:  # noqa: BLE001
+                raise _Abort(f'{clause.name}: check raised on case {canon(case)[:2000]}\n'
+                             + ''.join(traceback.format_exception(type(e), e, e.__traceback__)))
             if target['sig'] is None:
                 stats.record(case, out)
             sigs = {}
